@@ -7,7 +7,7 @@ use std::collections::HashMap;
 
 use rayon::prelude::*;
 use rten_text::tokenizer::{Tokenizer, TokenizerOptions};
-use vcommon::{Rng, Trace, Value, arg, arg_or, guarded, json, quiet_panics, read_json_lines};
+use vcommon::{Rng, Value, arg, arg_or, guarded, json, quiet_panics};
 
 use crate::util::{ByteChars, VocabMode, build_bpe, bytes_json, ids_json};
 
@@ -119,8 +119,23 @@ fn run(bc: &ByteChars, tok: &Result<Tokenizer, String>, text: &str) -> (String, 
 
 pub fn main_merge() {
     quiet_panics();
-    let cases = read_json_lines(&arg("--cases").expect("--cases"));
-    let mut trace = Trace::create(&arg_or("--out", "-"));
+    // the vector file can hold > 10^6 lines: parse it, replay it and serialize the records in parallel
+    let path = arg("--cases").expect("--cases");
+    let raw = std::fs::read_to_string(&path).unwrap_or_else(|e| {
+        eprintln!("cannot read {path}: {e}");
+        std::process::exit(2)
+    });
+    let lines: Vec<&str> = raw.lines().filter(|l| !l.trim().is_empty()).collect();
+    let cases: Vec<Value> = lines
+        .par_iter()
+        .map(|l| serde_json::from_str(l).expect("bad vector line"))
+        .collect();
+    let out_path = arg_or("--out", "-");
+    let mut out_file: Box<dyn std::io::Write> = if out_path == "-" {
+        Box::new(std::io::stdout())
+    } else {
+        Box::new(std::io::BufWriter::with_capacity(1 << 20, std::fs::File::create(&out_path).expect("create trace")))
+    };
     let seed_rng = Rng::from_env();
     // group the vectors by merge table (first-appearance order); a group is replayed by one
     // task that builds the two tokenizers of its table (Tokenizer is not Sync)
@@ -135,7 +150,7 @@ pub fn main_merge() {
         groups[g].1.push(n);
     }
     for batch in groups.chunks(256) {
-        let out: Vec<Vec<Value>> = batch
+        let out: Vec<Vec<String>> = batch
             .par_iter()
             .map(|(key, idxs)| {
                 let bc = ByteChars::new();
@@ -154,19 +169,22 @@ pub fn main_merge() {
                         let (xo, xids, xstrs) = run(&bc, &b.explicit, &text);
                         let (d_o, dids, dstrs) = run(&bc, &b.derived, &text);
                         json!({
-                            "ev": "case", "n": n, "m": c["m"], "s": c["s"], "one": c["one"], "all": c["all"],
+                            "ev": "case", "n": n, "seq": n + 1, "m": c["m"], "s": c["s"], "one": c["one"], "all": c["all"],
                             "alpha": bytes_json(&b.alpha), "text": bytes_json(&input), "xvocab": b.xvocab,
                             "xout": xo, "xids": xids, "xstrs": xstrs,
                             "dout": d_o, "dids": dids, "dstrs": dstrs,
                         })
+                        .to_string()
                     })
                     .collect()
             })
             .collect();
         for recs in out {
             for r in recs {
-                trace.emit(r);
+                out_file.write_all(r.as_bytes()).unwrap();
+                out_file.write_all(b"\n").unwrap();
             }
         }
     }
+    out_file.flush().unwrap();
 }
